@@ -111,6 +111,10 @@ pub struct WriterRig {
 
 impl WriterRig {
   pub fn new(cfg: &WriterCfg, guid: [u8; 16]) -> Self {
+    Self::new_with_qos(&writer_qos(cfg), cfg.frag_size, guid)
+  }
+
+  pub fn new_with_qos(qos: &QosPolicies, frag_size: Option<usize>, guid: [u8; 16]) -> Self {
     net::capture_begin();
     let (cmd_sender, cmd_receiver) = mio_channel::sync_channel::<WriterCommand>(16);
     let (status_sender, status_receiver) = sync_status_channel::<DataWriterStatus>(4096).unwrap();
@@ -123,7 +127,7 @@ impl WriterRig {
       writer_command_receiver_waker: waker_slot.clone(),
       topic_name: super::TOPIC_NAME.to_string(),
       like_stateless: false,
-      qos_policies: writer_qos(cfg),
+      qos_policies: qos.clone(),
       status_sender,
       security_plugins: None,
     };
@@ -133,7 +137,7 @@ impl WriterRig {
       mio_extras::timer::Builder::default().build(),
       participant_status_sender,
     );
-    if let Some(fs) = cfg.frag_size {
+    if let Some(fs) = frag_size {
       writer.data_max_size_serialized = fs;
     }
     let (acknack_sender, acknack_receiver) =
@@ -176,6 +180,17 @@ impl WriterRig {
       port,
     )))];
     self.writer.update_reader_proxy(&proxy, &reader_qos(reliable));
+  }
+
+  /// discovery announces a reader with arbitrary requested QoS
+  pub fn match_reader_with_qos(&mut self, reader: [u8; 16], requested: &QosPolicies, port: u16) {
+    let guid = guid_from_bytes(reader);
+    let mut proxy = RtpsReaderProxy::new(guid, requested.clone(), false);
+    proxy.unicast_locator_list = vec![Locator::from(std::net::SocketAddr::from((
+      [127, 0, 0, 1],
+      port,
+    )))];
+    self.writer.update_reader_proxy(&proxy, requested);
   }
 
   pub fn lose_reader(&mut self, reader: [u8; 16]) {
@@ -381,8 +396,12 @@ impl WriterRig {
           total.count(),
           current.count_change(),
         )),
-        DataWriterStatus::OfferedIncompatibleQos { count, .. } => out.push((
-          "OfferedIncompatibleQos".to_string(),
+        DataWriterStatus::OfferedIncompatibleQos {
+          count,
+          last_policy_id,
+          ..
+        } => out.push((
+          format!("OfferedIncompatibleQos:{last_policy_id:?}"),
           count.count(),
           count.count(),
           count.count_change(),
